@@ -12,7 +12,14 @@ fn main() {
     }
     let text = std::fs::read_to_string(&path).expect("read case file");
     let case = Case::from_text(&text, &|k| hbv::specs::specs_for(k)).expect("parse case");
-    let out = hbv::run_case(&case);
+    // a case of the scanner differential (C18) is evaluated on both back-ends by the runner whatever its
+    // header says; a crash dump of such a case must therefore be replayed on both
+    let mut out = hbv::run_case(&case);
+    if out.violation.is_none() && case.h("prop") == 18 && matches!(case.kind.as_str(), "map" | "table") {
+        let mut other = case.clone();
+        other.set("backend", if case.h("backend") == 0 { 1 } else { 0 });
+        out = hbv::run_case(&other);
+    }
     match &out.violation {
         Some(v) => {
             println!("REPLAY-VIOLATION property={} kind={} step={} detail={}", v.property, v.kind, v.step, v.detail);
